@@ -1116,8 +1116,10 @@ def r_ownfirst(ctx) -> RuleResult:
 
     def sorted_neighbours(e) -> Optional[str]:
         e = resolve(e)
-        if isinstance(e, ast.Call) and isinstance(e.func, ast.Name) and e.func.id in ("tuple", "list") and e.args:
+        if isinstance(e, ast.Call) and isinstance(e.func, ast.Name) and e.func.id in ("tuple", "list", "reversed") and e.args:
             return sorted_neighbours(e.args[0])
+        if isinstance(e, ast.Subscript) and isinstance(e.slice, ast.Slice) and e.slice.lower is None and e.slice.upper is None:
+            return sorted_neighbours(e.value)          # sorted(..)[::-1]
         if isinstance(e, ast.Call) and isinstance(e.func, ast.Name) and e.func.id == "sorted" and e.args:
             if kwarg(e, "key") is not None:
                 return "sorted with a key function"
@@ -1138,17 +1140,21 @@ def r_ownfirst(ctx) -> RuleResult:
     if isinstance(shape, ast.Call) and isinstance(shape.func, ast.Name) and shape.func.id in ("tuple", "list") and shape.args:
         shape = resolve(shape.args[0])
     first = rest = None
+    own_last = False
     if isinstance(shape, ast.BinOp) and isinstance(shape.op, ast.Add):
         l = resolve(shape.left)
+        r_ = resolve(shape.right)
         if isinstance(l, (ast.List, ast.Tuple)) and len(l.elts) == 1:
             first, rest = l.elts[0], shape.right
+        elif isinstance(r_, (ast.List, ast.Tuple)) and len(r_.elts) == 1:
+            first, rest, own_last = r_.elts[0], shape.left, True
     elif isinstance(shape, (ast.Tuple, ast.List)) and len(shape.elts) == 2 and isinstance(shape.elts[1], ast.Starred):
         first, rest = shape.elts[0], shape.elts[1].value
     elif isinstance(shape, (ast.Tuple, ast.List)) and len(shape.elts) == 2:
         first, rest = shape.elts[0], shape.elts[1]      # (own, sorted_tuple): nested but still own-first
     if first is None:
         raise AnalysisError(f"R-OWNFIRST: key shape `{short(rv)}` not recognised")
-    ok1 = own_value(first)
+    ok1 = own_value(first) and not own_last
     res.inst(kf.fq, f"key starts with the atom's own value: {short(first)}", "ok" if ok1 else "fail")
     if not ok1:
         res.fail(Finding("R-OWNFIRST", kf.module.rel, kf.qualname, norm(rets[0]), "refinement key does not start with the atom's own class: classes may merge across rounds", line=rets[0].lineno))
